@@ -1,4 +1,5 @@
 import DigModel.Proofs.DfsTotal
+import DigModel.Proofs.Termination
 /-
   C05 — Cycle safety, graph part (internal/graph/graph.go, full strength, any graph size):
 
@@ -7,9 +8,17 @@ import DigModel.Proofs.DfsTotal
   * `C05_dfs_total`    : with successors in range and fuel `n+1` the search never runs out of fuel;
   * `C05_dfs_complete` : a closed walk among the nodes `< n` exists ⇒ the answer is a cycle.
 
-  The container-level half (Provide rejects exactly the cycles of a scope's view; the resolver
-  terminates) is carried by the correspondence check with the on-stack guard in the model
-  (`callCtor`), see DESIGN.md §7 C05.
+  Resolver part (constructor.go / decorate.go / param.go, any registry — cyclic or not —, any history):
+
+  * `C05_resolver_terminates` : a `Call` of a constructor never exhausts a recursion budget of
+    `k·(D+3)+1`, where `k` bounds the number of idle nodes (neither built nor being built) and `D` the depth of
+    parameter objects: a node that is being built is marked and is never entered again, so a dependency
+    cycle that the graph check did not see ends in a cycle error (`C20_onstack`) instead of unbounded recursion;
+  * `C05_invoke_total` : in every program no operation runs out of the budget `apiInvoke` hands out
+    (the model's `fuel` answer is unreachable: its verdicts are those of a terminating computation).
+
+  That Provide rejects exactly the cycles of a scope's view is carried by the correspondence check
+  (cycle-heavy profile, K-graph), see DESIGN.md §7 C05.
 -/
 namespace Dig.C05
 open Dfs
@@ -31,6 +40,16 @@ theorem C05_dfs_complete (g : Nat → List Nat) (n : Nat) (hg : ∀ x, x < n →
     (hclosed : (a :: l).getLast (by simp) = a) : ∃ p, isAcyclic g n = .cycle p ∧ IsClosedWalk g p :=
   isAcyclic_complete g n hg a l hl hn hw hclosed
 
+theorem C05_resolver_terminates (ctx : Ctx) (L L' D k fuel n c : Nat) (st : St) (hn : n < L)
+    (hreg : ValidReg st) (hL : st.ctors.length = L) (hL' : st.decos.length = L')
+    (hD : (∀ m, pdepthL (st.ctor m).params ≤ D) ∧ (∀ d, pdepthL (st.deco d).params ≤ D))
+    (hk : idle L L' st ≤ k) (hfuel : k * (D + 3) + 1 ≤ fuel) :
+    (callCtor ctx fuel n c st).1 ≠ .error .fuel :=
+  (engine_nofuel ctx L L' D fuel).1 n c k st hn ⟨⟨hreg, hL, hL'⟩, hD.1, hD.2, hk⟩ hfuel
+
+theorem C05_invoke_total (p : Program) : ∀ r ∈ (runProgram p).2, r.v ≠ .fuel :=
+  runOps_nofuel p.ctx p.fns p.ops 0 {} [] HInv.init (fun _ h => by cases h)
+
 /-- non-vacuity (a test, not a theorem about all inputs): a 3-cycle is found, a chain is accepted -/
 example : isAcyclic (fun u => if u = 0 then [1] else if u = 1 then [2] else if u = 2 then [0] else []) 3 = .cycle [0, 1, 2, 0] := by decide
 example : isAcyclic (fun u => if u = 0 then [1] else if u = 1 then [2] else []) 3 = .ok [2, 1, 0] := by decide
@@ -39,4 +58,6 @@ example : isAcyclic (fun u => if u = 0 then [1] else if u = 1 then [2] else []) 
 #print axioms C05_path
 #print axioms C05_dfs_total
 #print axioms C05_dfs_complete
+#print axioms C05_resolver_terminates
+#print axioms C05_invoke_total
 end Dig.C05
